@@ -213,7 +213,7 @@ func (c04Driver) Run(cc core.Case) core.Outcome {
 			o.Count("probe.augment_through_implicit_case_and_clean", 1)
 		}
 	}
-	if c.Scenario != nil && !lateAug && len(latestOnly(c.Scenario).Mods) == len(c.Scenario.Mods) {
+	if c.Scenario != nil && len(latestOnly(c.Scenario).Mods) == len(c.Scenario.Mods) {
 		// (with two revisions of a module loaded and importers pinned to the
 		// older one, a collision the reference model sees among the latest
 		// revisions may not arise: the invariant alone is checked then)
